@@ -11,7 +11,8 @@ from core.common import f2b, b2f, close
 from core import impl as I
 
 ID = "C13"
-LEAN_MODULES = ["AcnProofs.C13", "AcnProofs.Lemmas.CodeTieEvse"]
+LEAN_MODULES = ["AcnProofs.C13"]
+TIE_MODULES = ["AcnProofs.Lemmas.CodeTieEvse"]
 DRIVER = "drv_C13"
 REQUIRED_THEOREMS = [
     "Acn.C13.cont_valid_iff", "Acn.C13.cont_valid_iff_inf", "Acn.C13.deadband_valid_iff",
@@ -19,21 +20,44 @@ REQUIRED_THEOREMS = [
     "Acn.C13.advertised_accepted_cont", "Acn.C13.advertised_accepted_deadband",
     "Acn.C13.advertised_accepted_finite", "Acn.C13.reject_iff", "Acn.C13.plugin_occupied_refused",
     "Acn.C13.gen_tolerances", "Acn.C13.gen_type_tables",
+    # the description read through the network / Interface, for networks of any size
+    "Acn.C13.registered_ids_nodup", "Acn.C13.registered_last_wins", "Acn.C13.registered_consistent_iff",
+    "Acn.C13.info_cache_eq", "Acn.C13.info_cache_unknown", "Acn.C13.info_cache_no_index_error",
+    "Acn.C13.advertised_values_accepted", "Acn.C13.advertised_accepted_net",
 ]
-BUDGET = {"quick": 1500, "thorough": 40000, "search": 20000}
+BUDGET = {"quick": 1500, "thorough": 40000, "search": 8000}
 TRUSTED = ["numpy.isclose / Python float comparison semantics (modelled as |a-b| <= atol)",
            "IEEE-754 rounding at the open edge of the tolerance (oracle abstains within 1e-9 of the edge; "
-           "the dyadic exact-edge stream tests the edge itself without rounding)"]
-ASSUMPTIONS = ["theorems are over an arbitrary linear ordered field; the implementation computes in doubles"]
-RULE = ("per case one EVSE (continuous / deadband / finite, parameters incl. unsorted, duplicated, zero-free "
-        "rate lists and infinite max) and a sequence of 1-8 operations (validity query, set_pilot with/without "
-        "connected EV, plugin, plugin-when-occupied, unplug) with pilots at every boundary ± "
+           "the dyadic exact-edge stream tests the edge itself without rounding)",
+           "collections.OrderedDict / dict-comprehension semantics (modelled by setStation / stationIndex) and "
+           "numpy indexing of the cached per-station containers"]
+ASSUMPTIONS = ["theorems are over an arbitrary linear ordered field; the implementation computes in doubles",
+               "the advertised-info theorems take the network as the result of register_evse calls; constraint "
+               "edits (add / remove / update) do not enter the model and are tied by the correspondence only "
+               "(the description must be unchanged by them)",
+               "advertised_accepted_net assumes well-formed EVSE parameters (min <= max, deadband end <= max)"]
+RULE = ("per case a ChargingNetwork of 1-7 EVSEs (continuous / deadband / finite, parameters incl. unsorted, duplicated, "
+        "zero-free rate lists and infinite max; always a non-empty allowable interval) registered in an order that is not the sorted order of their ids; ~75% of "
+        "the cases hold several stations and most of those hold SIBLINGS: same class with equal min_rate/max_rate and a "
+        "different allowable set (other deadband end, other intermediate finite steps), identical twins, another class with "
+        "the same advertised pair, same set written differently; ~10% register an id twice (the later EVSE replaces the "
+        "earlier one); 0-3 constraint edits (add / remove / update) follow the registrations. The network cache, the three "
+        "Interface accessors (for every registered id and unknown ids; through a new Interface and through one that exists "
+        "since before the first registration) and infrastructure_info() are read after EVERY "
+        "registration, after the constraint edits and after the operations, the handed-out InfrastructureInfo copy is "
+        "scribbled over, and every value advertised for a station is sent to that station. Then a sequence of 1-8 "
+        "operations (validity query, set_pilot with/without connected EV, plugin, plugin-when-occupied, unplug), each "
+        "addressed to one of the stations, with pilots at every boundary of the target's or a sibling's allowable set ± "
         "{0,1e-4,5e-4,9.99e-4,1e-3,1.001e-3,2e-3}, NaN, negatives, and an exact dyadic-edge stream; "
-        "non-trivial = at least one pilot within 2.5e-3 of a boundary of the allowable set or a rejection "
-        "with an EV connected; distinct by hash of the case")
+        "non-trivial = at least one pilot within 2.5e-3 of a boundary of the allowable set, a rejection with an EV "
+        "connected, or two stations of one class with equal min/max and different allowable sets; distinct by hash of the case")
 
 ATOL = 1e-3
 OFFS = [0.0, 1e-4, -1e-4, 5e-4, -5e-4, 9.99e-4, -9.99e-4, 1e-3, -1e-3, 1.001e-3, -1.001e-3, 2e-3, -2e-3, 0.5, -0.5, 3.0, -3.0]
+# station ids whose sorted order, registration order and case differ ("s" vs the primary "S")
+IDS = ["CA-148", "10", "9", "Z", "s", "S2", "a b", "Å-1", "0x1F", "B"]
+VOLTS = [208, 240, 120, 277.5]
+PHASES = [0, 120, -120, 30]
 
 
 # ------------------------------------------------------------------ generation
@@ -54,6 +78,86 @@ def _gen_kind(rng):
         rates = [rng.choice([0, 6, 8, 10, 12.5, 16, 20, 24, 30, 32, 40, 0.002, 8.0015]) for _ in range(n)]
         rng.shuffle(rates)
     return {"t": "finite", "rates": rates}
+
+
+def _levels(kind):
+    """sorted(set(rates) | {0}) of a finite kind (what the constructor is documented to keep)."""
+    return sorted(set(float(I.num(r)) for r in kind["rates"]) | {0.0})
+
+
+def _sibling(rng, kind):
+    """A station that shares class and / or advertised min / max with `kind` without (necessarily)
+    sharing its allowable set — the configurations in which a description can be mixed up."""
+    t = kind["t"]
+    r = rng.random()
+    if t == "cont":
+        if r < 0.2:
+            return dict(kind)
+        if r < 0.45:
+            return {"t": "cont", "min": rng.choice([m for m in [0, 0.5, 6, 8] if m != kind["min"]]), "max": kind["max"]}
+        if r < 0.65:
+            return {"t": "cont", "min": kind["min"], "max": rng.choice([16, 32, 80, "inf", 32.5])}
+        if r < 0.85:
+            # equal min_rate (0) and max_rate, other class, other set
+            return {"t": "deadband", "db": rng.choice([5.5, 6, 8]), "max": kind["max"]}
+        # equal advertised pair, other class (0 is accepted by this one only)
+        return {"t": "deadband", "db": kind["min"] if I.num(kind["min"]) > 0 else 6, "max": kind["max"]}
+    if t == "deadband":
+        if r < 0.15:
+            return dict(kind)
+        if r < 0.6:
+            # equal class, min_rate (0) and max_rate; only the deadband differs
+            return {"t": "deadband", "db": rng.choice([d for d in [5.5, 6, 8, 10, 12] if d != kind["db"]]), "max": kind["max"]}
+        if r < 0.72:
+            return {"t": "cont", "min": 0, "max": kind["max"]}
+        if r < 0.86:
+            return {"t": "cont", "min": kind["db"], "max": kind["max"]}
+        return {"t": "deadband", "db": kind["db"], "max": rng.choice([m for m in [16, 32, 48, "inf"] if m != kind["max"]])}
+    lv = _levels(kind)
+    pos = [v for v in lv if v > 0]
+    if not pos:
+        return _gen_kind(rng)
+    lo, hi = pos[0], pos[-1]
+    if r < 0.12:
+        return {"t": "finite", "rates": list(kind["rates"])}
+    if r < 0.27:
+        # the same set, written differently (order, duplicates, with / without 0)
+        rates = list(pos) + [rng.choice(pos)] + ([0] if rng.random() < 0.5 else [])
+        rng.shuffle(rates)
+        return {"t": "finite", "rates": rates}
+    if r < 0.7:
+        # equal class, smallest non-zero and largest level; other steps between
+        pool = [x for x in [6.5, 7, 8, 10, 12.5, 16, 20, 24, 30, 31.999, 8.0015] if lo < x < hi]
+        for _ in range(4):
+            mids = rng.sample(pool, rng.randint(0, min(3, len(pool)))) if pool else []
+            rates = [lo, hi] + mids + ([0] if rng.random() < 0.5 else [])
+            if sorted(set(rates) | {0.0}) != lv:
+                break
+        rng.shuffle(rates)
+        return {"t": "finite", "rates": rates}
+    if r < 0.82:
+        return {"t": "cont", "min": lo, "max": hi}
+    if r < 0.91 and len(pos) > 1:
+        drop = rng.choice(pos)
+        return {"t": "finite", "rates": [v for v in pos if v != drop]}
+    return {"t": "finite", "rates": pos + [rng.choice([6, 10, 20, 40, 48])]}
+
+
+def _well_formed(kind):
+    """non-empty allowable interval (the parameter range the classes are meant for)"""
+    if kind["t"] == "cont":
+        return I.num(kind["min"]) <= I.num(kind["max"])
+    if kind["t"] == "deadband":
+        return I.num(kind["db"]) <= I.num(kind["max"])
+    return True
+
+
+def _gen_sibling(rng, kind):
+    for _ in range(6):
+        k = _sibling(rng, kind)
+        if _well_formed(k):
+            return k
+    return _gen_kind(rng)
 
 
 def _boundaries(kind):
@@ -82,45 +186,113 @@ def _gen_pilot(rng, kind):
     return rng.choice([0, 6, 8, 16, 32, 1e6])
 
 
-def _gen_ev(rng, k):
+def _gen_ev(rng, k, station="S"):
     two = rng.random() < 0.4
     cap = rng.choice([10, 40, 60.5, 100])
     batt = {"two": two, "cap": cap, "init": round(rng.uniform(0, cap), 3), "maxp": rng.choice([3.3, 6.6, 7, 50])}
     if two:
         batt.update({"noise": rng.choice([0, 0, 0.5]), "ts": rng.choice([0.8, 0.5, 0.9]),
                      "calc": rng.choice(["continuous", "stepwise"])})
-    return {"session": f"s{k}", "station": "S", "arrival": 0, "departure": 10, "requested": round(rng.uniform(1, 30), 3), "batt": batt}
+    return {"session": f"s{k}", "station": station, "arrival": 0, "departure": 10, "requested": round(rng.uniform(1, 30), 3), "batt": batt}
 
 
-def _gen_case(rng, exact=False):
+def _gen_net(rng, kind):
+    """The `register_evse` calls (the primary station "S" among them, its kind is `case["kind"]`),
+    constraint edits, and the ids asked through the Interface."""
+    n_other = rng.choice([1, 1, 2, 2, 3, 4, 5])
+    ids = rng.sample(IDS, n_other)
+    kinds = [kind]
+    regs = []
+    for sid in ids:
+        k = _gen_sibling(rng, rng.choice(kinds)) if rng.random() < 0.75 else _gen_kind(rng)
+        kinds.append(k)
+        regs.append({"id": sid, "kind": k, "V": rng.choice(VOLTS), "ph": rng.choice(PHASES)})
+    regs.insert(rng.randint(0, len(regs)), {"id": "S", "V": rng.choice(VOLTS), "ph": rng.choice(PHASES)})
+    if rng.random() < 0.1:
+        # an id registered twice: the earlier EVSE (explicit kind) is replaced by the later one
+        j = rng.randrange(len(regs))
+        later = regs[j]
+        regs.insert(rng.randint(0, j), {"id": later["id"], "kind": _gen_sibling(rng, later.get("kind", kind)),
+                                        "V": rng.choice(VOLTS), "ph": rng.choice(PHASES)})
+    final = list(dict.fromkeys(r["id"] for r in regs))
+    cons, names = [], []
+    for i in range(rng.choice([0, 0, 1, 1, 2, 3])):
+        c = rng.random()
+        if not names or c < 0.6:
+            cons.append({"op": "add", "ids": rng.sample(final, rng.randint(1, len(final))),
+                         "limit": rng.choice([32, 100, 1000]), "name": f"c{i}"})
+            names.append(f"c{i}")
+        elif c < 0.8:
+            cons.append({"op": "remove", "name": names.pop(rng.randrange(len(names)))})
+        else:
+            cons.append({"op": "update", "name": rng.choice(names), "ids": rng.sample(final, rng.randint(1, len(final))),
+                         "limit": rng.choice([16, 64])})
+    queries = list(final)
+    rng.shuffle(queries)
+    if rng.random() < 0.35:
+        queries.insert(rng.randint(0, len(queries)), rng.choice([q for q in ["nope", "s", "S ", "", "CA-149"] if q not in final]))
+    return {"regs": regs, "cons": cons, "queries": queries}
+
+
+def _regs(case):
+    """the registration calls with the primary's kind filled in"""
+    net = case.get("net")
+    if not net:
+        return [{"id": "S", "kind": case["kind"], "V": 208, "ph": 0}]
+    return [{"id": r["id"], "kind": r.get("kind", case["kind"]), "V": r.get("V", 208), "ph": r.get("ph", 0)}
+            for r in net["regs"]]
+
+
+def _final_kinds(regs):
+    """id -> kind of the EVSE that answers under the id (dict semantics: first position, last value)"""
+    out = {}
+    for r in regs:
+        out[r["id"]] = r["kind"]
+    return out
+
+
+def _gen_case(rng, exact=False, single=False):
     kind = _gen_kind(rng)
+    case = {"kind": kind}
+    if not single and rng.random() < 0.75:
+        case["net"] = _gen_net(rng, kind)
+    kinds = _final_kinds(_regs(case))
+    others = [s for s in kinds if s != "S"]
     ops = []
     n = rng.randint(1, 8)
     k = 0
     for _ in range(n):
         r = rng.random()
+        at = rng.choice(others) if others and rng.random() < 0.45 else "S"
+        tk = kinds[at]
+        # pilots sit at the boundaries of the target's own set or of another station's set
+        pk = tk if (not others or rng.random() < 0.65) else kinds[rng.choice(list(kinds))]
         if exact:
             # dyadic tolerance, dyadic boundaries: float arithmetic is exact at the edge
-            b = rng.choice([x for x in _boundaries(kind) if float(x) == round(float(x) * 8) / 8] or [0.0])
+            b = rng.choice([x for x in _boundaries(pk) if float(x) == round(float(x) * 8) / 8] or [0.0])
             atol = 2.0 ** -10
             p = b + rng.choice([0, atol, -atol, 2 * atol, -2 * atol, atol / 2, -atol / 2])
-            ops.append({"op": "valid", "p": p, "atol": atol})
+            op = {"op": "valid", "p": p, "atol": atol}
         elif r < 0.35:
-            ops.append({"op": "valid", "p": _gen_pilot(rng, kind), "atol": ATOL})
+            op = {"op": "valid", "p": _gen_pilot(rng, pk), "atol": ATOL}
         elif r < 0.75:
-            ops.append({"op": "set_pilot", "p": _gen_pilot(rng, kind), "V": rng.choice([208, 240, 120, 277.5]),
-                        "T": rng.choice([1, 5, 15, 0.5]), "nu": round(rng.gauss(0, 0.5), 4)})
+            op = {"op": "set_pilot", "p": _gen_pilot(rng, pk), "V": rng.choice([208, 240, 120, 277.5]),
+                  "T": rng.choice([1, 5, 15, 0.5]), "nu": round(rng.gauss(0, 0.5), 4)}
         elif r < 0.9:
-            prev = [o for o in ops if o["op"] == "plugin"]
+            prev = [o for o in ops if o["op"] == "plugin" and o.get("at", "S") == at]
             if prev and rng.random() < 0.4:
                 # re-plug the occupant itself, or a rebuilt EV carrying the same session id
-                ops.append({"op": "plugin", "ev": prev[-1]["ev"], "same": rng.choice(["object", "copy"])})
+                op = {"op": "plugin", "ev": prev[-1]["ev"], "same": rng.choice(["object", "copy"])}
             else:
-                ops.append({"op": "plugin", "ev": _gen_ev(rng, k)})
+                op = {"op": "plugin", "ev": _gen_ev(rng, k, at)}
                 k += 1
         else:
-            ops.append({"op": "unplug"})
-    return {"kind": kind, "ops": ops}
+            op = {"op": "unplug"}
+        if at != "S":
+            op["at"] = at
+        ops.append(op)
+    case["ops"] = ops
+    return case
 
 
 def corpus():
@@ -135,6 +307,30 @@ def corpus():
             {"op": "set_pilot", "p": 32.0009, "V": 208, "T": 5, "nu": 0},
             {"op": "unplug"}]},
         {"kind": {"t": "cont", "min": 0, "max": "inf"}, "ops": [{"op": "valid", "p": 1e6, "atol": ATOL}, {"op": "valid", "p": -0.0011, "atol": ATOL}]},
+        # a small car park: same-class stations with equal min / max and different allowable sets, registered in
+        # an order that is not the sorted order of the ids; each is probed inside the OTHER one's set
+        {"kind": {"t": "deadband", "db": 8, "max": 32},
+         "net": {"regs": [{"id": "Z", "kind": {"t": "deadband", "db": 6, "max": 32}, "V": 240, "ph": 0},
+                          {"id": "S", "V": 240, "ph": 0},
+                          {"id": "B", "kind": {"t": "finite", "rates": [0, 8, 16, 32]}, "V": 208, "ph": 120},
+                          {"id": "10", "kind": {"t": "finite", "rates": [32, 24, 8, 8]}, "V": 208, "ph": -120},
+                          {"id": "9", "kind": {"t": "cont", "min": 0, "max": 32}, "V": 240, "ph": 0}],
+                 "cons": [{"op": "add", "ids": ["S", "10"], "limit": 40, "name": "c0"}],
+                 "queries": ["10", "S", "nope", "B", "Z", "9"]},
+         "ops": [{"op": "set_pilot", "p": 7, "V": 240, "T": 5, "nu": 0},
+                 {"op": "set_pilot", "p": 7, "V": 240, "T": 5, "nu": 0, "at": "Z"},
+                 {"op": "set_pilot", "p": 16, "V": 208, "T": 5, "nu": 0, "at": "10"},
+                 {"op": "set_pilot", "p": 24, "V": 208, "T": 5, "nu": 0, "at": "10"},
+                 {"op": "set_pilot", "p": 24, "V": 208, "T": 5, "nu": 0, "at": "B"},
+                 {"op": "valid", "p": 7.9991, "atol": ATOL}]},
+        # an id registered twice: the later EVSE answers, at the first position
+        {"kind": {"t": "finite", "rates": [8, 16]},
+         "net": {"regs": [{"id": "S", "kind": {"t": "cont", "min": 0, "max": 16}, "V": 208, "ph": 0},
+                          {"id": "B", "kind": {"t": "finite", "rates": [8, 12.5, 16]}, "V": 208, "ph": 0},
+                          {"id": "S", "V": 240, "ph": 0}],
+                 "cons": [], "queries": ["S", "B"]},
+         "ops": [{"op": "set_pilot", "p": 12.5, "V": 208, "T": 5, "nu": 0},
+                 {"op": "set_pilot", "p": 12.5, "V": 208, "T": 5, "nu": 0, "at": "B"}]},
     ]
 
 
@@ -151,36 +347,151 @@ def _obs_state(evse):
     return {"pilot": I.enc(float(evse.current_pilot)), "ev": I.ev_state(evse.ev)}
 
 
-def run_impl(case):
-    evse = I.make_evse(case["kind"])
-    info = {
-        "max": float(evse.max_rate), "min": float(evse.min_rate), "cont": bool(evse.is_continuous),
-        "allowable": [float(x) for x in evse.allowable_pilot_signals],
-    }
-    # advertised values are themselves accepted (checked on the real predicate)
-    adv = []
-    for v in set(info["allowable"] + [info["max"]] + ([0.0] if case["kind"]["t"] != "cont" else [info["min"]])):
-        ok = bool(evse._valid_rate(v))
-        # ... and through the public entry point, on a fresh EVSE of the same kind (incl. inf)
-        fresh = I.make_evse(case["kind"])
+def _own_info(evse):
+    return {"max": float(evse.max_rate), "min": float(evse.min_rate), "cont": bool(evse.is_continuous),
+            "allowable": [float(x) for x in evse.allowable_pilot_signals]}
+
+
+def _net_arrays(net):
+    return {"ids": list(net.station_ids),
+            "max": [float(x) for x in net.max_pilot_signals], "min": [float(x) for x in net.min_pilot_signals],
+            "allow": [[float(a) for a in arr] for arr in net.allowable_rates],
+            "cont": [bool(b) for b in net.is_continuous]}
+
+
+def _new_interface(net):
+    from acnportal.acnsim import Simulator, EventQueue, Interface
+    from acnportal.algorithms import BaseAlgorithm
+    return Interface(Simulator(net, BaseAlgorithm(), EventQueue(), datetime(2020, 1, 1), verbose=False))
+
+
+def _ask(iface, q):
+    ent = {"id": q}
+    try:
+        cont, allow = iface.allowable_pilot_signals(q)
+        ent["allowable"] = {"err": None, "cont": bool(cont), "vals": [float(a) for a in allow]}
+    except Exception as e:  # noqa
+        ent["allowable"] = {"err": I.err_name(e)}
+    for name, fn in (("max", iface.max_pilot_signal), ("min", iface.min_pilot_signal)):
         try:
-            fresh.set_pilot(v, 208, 5)
-            ok_sp = fresh.current_pilot == v
-        except Exception:  # noqa
-            ok_sp = False
-        adv.append([I.enc(v), ok and ok_sp])
-    info["advertised_accepted"] = sorted(adv, key=lambda t: float(t[0]))
-    # network cache + Interface accessors
-    info["iface"] = _iface_info(case["kind"])
+            ent[name] = {"err": None, "v": float(fn(q))}
+        except Exception as e:  # noqa
+            ent[name] = {"err": I.err_name(e)}
+    return ent
+
+
+def _snapshot(net, queries, live=None):
+    """What the network advertises right now: its cached containers, the Interface accessors for the
+    queried ids (through an Interface made now and through `live`, one that has been answering since
+    before the first registration), the InfrastructureInfo handed to a scheduler — next to every
+    station's own description."""
+    snap = _net_arrays(net)
+    snap["own"] = [_own_info(net._EVSEs[s]) for s in snap["ids"]]
+    iface = _new_interface(net)
+    qs = []
+    for q in queries:
+        ent = _ask(iface, q)
+        if live is not None:
+            old = _ask(live, q)
+            ent["live_same"] = (old == ent)
+            if not ent["live_same"]:
+                ent["live"] = old
+        qs.append(ent)
+    snap["iface"] = qs
+    try:
+        info = iface.infrastructure_info()
+        snap["infra"] = {"err": None, "ids": list(info.station_ids),
+                         "index": [int(info.get_station_index(s)) for s in info.station_ids],
+                         "max": [float(x) for x in info.max_pilot], "min": [float(x) for x in info.min_pilot],
+                         "allow": [[float(a) for a in arr] for arr in info.allowable_pilots],
+                         "cont": [bool(b) for b in info.is_continuous]}
+        # a scheduler scribbling over ITS copy must not change what the network advertises
+        for arr in info.allowable_pilots:
+            arr[...] = -7
+        info.max_pilot[...] = -7
+        info.min_pilot[...] = -7
+        info.is_continuous[...] = ~info.is_continuous
+        snap["unchanged_by_consumer"] = (_net_arrays(net) == {k: snap[k] for k in ("ids", "max", "min", "allow", "cont")})
+    except Exception as e:  # noqa
+        snap["infra"] = {"err": I.err_name(e)}
+        snap["unchanged_by_consumer"] = True
+    return snap
+
+
+def _advertised(snap, i, sid):
+    """the values advertised for station `sid` (position `i`): through the Interface when it answers,
+    from the network's containers otherwise"""
+    ent = next((q for q in snap["iface"] if q["id"] == sid), None)
+    if ent is not None and ent["allowable"]["err"] is None and ent["max"]["err"] is None and ent["min"]["err"] is None:
+        return ent["allowable"]["vals"], ent["max"]["v"], ent["min"]["v"]
+    return snap["allow"][i], snap["max"][i], snap["min"][i]
+
+
+def run_impl(case):
+    from acnportal.acnsim.network import ChargingNetwork, Current
+    regs = _regs(case)
+    netspec = case.get("net") or {}
+    queries = netspec.get("queries", ["S"])
+    kinds = _final_kinds(regs)
+    net = ChargingNetwork()
+    live = _new_interface(net)
+    snaps = []
+    for r in regs:
+        err = None
+        try:
+            net.register_evse(I.make_evse(r["kind"], r["id"]), r["V"], r["ph"])
+        except Exception as e:  # noqa
+            err = I.err_name(e)
+        snap = _snapshot(net, queries, live)
+        snap["reg_err"] = err
+        snaps.append(snap)
+    cons_err = []
+    for c in netspec.get("cons", []):
+        try:
+            if c["op"] == "add":
+                net.add_constraint(Current(list(c["ids"])), c["limit"], name=c["name"])
+            elif c["op"] == "remove":
+                net.remove_constraint(c["name"])
+            else:
+                net.update_constraint(c["name"], Current(list(c["ids"])), c["limit"])
+            cons_err.append(None)
+        except Exception as e:  # noqa
+            cons_err.append(I.err_name(e))
+    post_cons = _snapshot(net, queries, live)
+
+    evse = net._EVSEs["S"]
+    info = _own_info(evse)
+    # advertised values are themselves accepted: every value the network / Interface reports for a station is
+    # sent to THAT station (the registered object's predicate, and the public entry point on a fresh EVSE of
+    # the same kind, incl. inf)
+    adv = []
+    for i, sid in enumerate(post_cons["ids"]):
+        allow, mx, mn = _advertised(post_cons, i, sid)
+        kind = kinds[sid]
+        vals = set(list(allow) + [mx] + ([0.0] if kind["t"] != "cont" else [mn]))
+        for v in sorted(vals):
+            ok = bool(net._EVSEs[sid]._valid_rate(v))
+            fresh = I.make_evse(kind, sid)
+            try:
+                fresh.set_pilot(v, 208, 5)
+                ok_sp = fresh.current_pilot == v
+            except Exception:  # noqa
+                ok_sp = False
+            adv.append([sid, I.enc(v), ok and ok_sp])
+    info["advertised_accepted"] = adv
+
     steps = []
     with I.noise_source() as ns:
         for o in case["ops"]:
             op = o["op"]
+            at = o.get("at", "S")
+            evse = net._EVSEs[at]
             ns.value = o.get("nu", 0.0)
             if op == "valid":
                 steps.append({"valid": bool(evse._valid_rate(I.num(o["p"]), atol=o["atol"]))})
                 continue
             before = _obs_state(evse)
+            elsewhere = {s: _obs_state(e) for s, e in net._EVSEs.items() if s != at}
             occupant = evse.ev
             err = None
             try:
@@ -199,27 +510,13 @@ def run_impl(case):
             st["err"] = err
             st["before"] = before
             st["same_occupant"] = evse.ev is occupant
+            st["others_changed"] = sorted(s for s, e in net._EVSEs.items() if s != at and _obs_state(e) != elsewhere[s])
             steps.append(st)
-    return {"info": info, "steps": steps}
-
-
-def _iface_info(kind):
-    from acnportal.acnsim.network import ChargingNetwork
-    from acnportal.acnsim import Simulator, EventQueue, Interface
-    from acnportal.algorithms import BaseAlgorithm
-    net = ChargingNetwork()
-    net.register_evse(I.make_evse(kind, "S"), 208, 0)
-    # a constraint is added because Interface cannot describe a constraint-free network on the
-    # unfixed tree (finding F3, decided under C06, not here)
-    from acnportal.acnsim.network import Current
-    net.add_constraint(Current(["S"]), 1000, name="c")
-    sim = Simulator(net, BaseAlgorithm(), EventQueue(), datetime(2020, 1, 1), verbose=False)
-    iface = Interface(sim)
-    cont, allow = iface.allowable_pilot_signals("S")
-    return {"max": float(iface.max_pilot_signal("S")), "min": float(iface.min_pilot_signal("S")),
-            "cont": bool(cont), "allowable": [float(a) for a in allow],
-            "net_max": float(net.max_pilot_signals[0]), "net_min": float(net.min_pilot_signals[0]),
-            "net_allow": [float(a) for a in net.allowable_rates[0]], "net_cont": bool(net.is_continuous[0])}
+    final = [dict(id=s, **_obs_state(e)) for s, e in net._EVSEs.items()]
+    # the description does not depend on pilots / occupants
+    post = _snapshot(net, queries, live)
+    return {"info": info, "steps": steps, "snaps": snaps, "post_cons": post_cons, "post": post,
+            "cons_err": cons_err, "final": final}
 
 
 # ------------------------------------------------------------------ model
@@ -228,15 +525,22 @@ def model_request(case):
     ops = []
     for o in case["ops"]:
         if o["op"] == "valid":
-            ops.append({"op": "valid", "p": f2b(I.num(o["p"])), "atol": f2b(o["atol"])})
+            m = {"op": "valid", "p": f2b(I.num(o["p"])), "atol": f2b(o["atol"])}
         elif o["op"] == "set_pilot":
-            ops.append({"op": "set_pilot", "p": f2b(I.num(o["p"])), "V": f2b(o["V"]), "T": f2b(o["T"]),
-                        "nu": f2b(o["nu"])})
+            m = {"op": "set_pilot", "p": f2b(I.num(o["p"])), "V": f2b(o["V"]), "T": f2b(o["T"]),
+                 "nu": f2b(o["nu"])}
         elif o["op"] == "plugin":
-            ops.append({"op": "plugin", "ev": I.ev_wire(o["ev"])})
+            m = {"op": "plugin", "ev": I.ev_wire(o["ev"])}
         else:
-            ops.append({"op": "unplug"})
-    return {"kind": I.kind_wire(case["kind"]), "ops": ops}
+            m = {"op": "unplug"}
+        if o.get("at", "S") != "S":
+            m["at"] = o["at"]
+        ops.append(m)
+    req = {"kind": I.kind_wire(case["kind"]), "ops": ops}
+    if case.get("net"):
+        req["net"] = {"regs": [{"id": r["id"], "kind": I.kind_wire(r["kind"])} for r in _regs(case)],
+                      "queries": list(case["net"].get("queries", ["S"]))}
+    return req
 
 
 def _cmp_ev(a, m, out, where):
@@ -255,6 +559,43 @@ def _cmp_ev(a, m, out, where):
             out.append(f"{where}: batt.{k} impl={a['batt'][k]!r} model={b2f(m['batt'][k])!r}")
 
 
+def _close_list(a, mb):
+    return len(a) == len(mb) and all(close(x, b2f(y)) for x, y in zip(a, mb))
+
+
+def _cmp_snap(a, m, out, where):
+    """implementation snapshot against the model's description of the same registration prefix"""
+    if a.get("reg_err") is not None:
+        out.append(f"{where}: register_evse raised {a['reg_err']}")
+    if a["ids"] != m["ids"]:
+        out.append(f"{where}: station order impl={a['ids']} model={m['ids']}")
+        return
+    if not _close_list(a["max"], m["maxs"]):
+        out.append(f"{where}: max_pilot_signals impl={a['max']} model={[b2f(x) for x in m['maxs']]}")
+    if not _close_list(a["min"], m["mins"]):
+        out.append(f"{where}: min_pilot_signals impl={a['min']} model={[b2f(x) for x in m['mins']]}")
+    if a["cont"] != m["cont"]:
+        out.append(f"{where}: is_continuous impl={a['cont']} model={m['cont']}")
+    if len(a["allow"]) != len(m["allow"]) or not all(_close_list(x, y) for x, y in zip(a["allow"], m["allow"])):
+        out.append(f"{where}: allowable_rates impl={a['allow']} model={[[b2f(v) for v in y] for y in m['allow']]}")
+    if (a["infra"]["err"] is None) != m["infra_ok"]:
+        out.append(f"{where}: infrastructure_info err impl={a['infra']['err']} model ok={m['infra_ok']}")
+    for qa, qm in zip(a["iface"], m["iface"]):
+        for f in ("allowable", "max", "min"):
+            ea, em = qa[f]["err"], qm[f].get("err")
+            if ea != em:
+                out.append(f"{where}: Interface {f}({qa['id']!r}) err impl={ea} model={em}")
+                continue
+            if ea is not None:
+                continue
+            if f == "allowable":
+                if qa[f]["cont"] != qm[f]["cont"] or not _close_list(qa[f]["vals"], qm[f]["vals"]):
+                    out.append(f"{where}: Interface allowable_pilot_signals({qa['id']!r}) impl={qa[f]} "
+                               f"model={(qm[f]['cont'], [b2f(v) for v in qm[f]['vals']])}")
+            elif not close(qa[f]["v"], b2f(qm[f]["v"])):
+                out.append(f"{where}: Interface {f}_pilot_signal({qa['id']!r}) impl={qa[f]['v']} model={b2f(qm[f]['v'])}")
+
+
 def compare(case, obs, model):
     out = []
     mi = model["info"]
@@ -268,19 +609,35 @@ def compare(case, obs, model):
     ma = [b2f(x) for x in mi["allowable"]]
     if len(ma) != len(ii["allowable"]) or not all(close(a, b) for a, b in zip(ii["allowable"], ma)):
         out.append(f"allowable impl={ii['allowable']} model={ma}")
+    # the advertised description after every registration; unchanged by constraint edits and operations
+    if len(obs["snaps"]) != len(model["snaps"]):
+        out.append(f"{len(obs['snaps'])} registrations observed, {len(model['snaps'])} modelled")
+    for k, (a, m) in enumerate(zip(obs["snaps"], model["snaps"])):
+        _cmp_snap(a, m, out, f"after registration {k}")
+    if model["snaps"]:
+        _cmp_snap(obs["post_cons"], model["snaps"][-1], out, "after the constraint edits")
+        _cmp_snap(obs["post"], model["snaps"][-1], out, "after the operations")
     for i, (a, m) in enumerate(zip(obs["steps"], model["steps"])):
         if "valid" in a:
             if a["valid"] != m.get("valid"):
                 out.append(f"step {i}: valid impl={a['valid']} model={m.get('valid')} op={case['ops'][i]}")
             continue
         if a["err"] != m["err"]:
-            if a["err"] == "ValueError" or m["err"] == "ValueError":
-                pass
             out.append(f"step {i}: err impl={a['err']} model={m['err']} op={case['ops'][i]}")
             continue
         if not close(I.num(a["pilot"]), b2f(m["pilot"])):
             out.append(f"step {i}: pilot impl={a['pilot']} model={b2f(m['pilot'])}")
         _cmp_ev(a["ev"], m["ev"], out, f"step {i}")
+        if a["others_changed"]:
+            out.append(f"step {i}: stations {a['others_changed']} changed by an operation on {case['ops'][i].get('at', 'S')}")
+    fa, fm = obs["final"], model["final"]
+    if [s["id"] for s in fa] != [s["id"] for s in fm]:
+        out.append(f"final stations impl={[s['id'] for s in fa]} model={[s['id'] for s in fm]}")
+    else:
+        for a, m in zip(fa, fm):
+            if not close(I.num(a["pilot"]), b2f(m["pilot"])):
+                out.append(f"final {a['id']}: pilot impl={a['pilot']} model={b2f(m['pilot'])}")
+            _cmp_ev(a["ev"], m["ev"], out, f"final {a['id']}")
     return out
 
 
@@ -323,46 +680,118 @@ def _expected_valid(kind, p, atol):
     return margin <= 0
 
 
+def _spec_info(kind):
+    """what the documentation of each class says it advertises (the minimum is only pinned for the
+    continuous class; for the others the station's own `min_rate` is the reference)"""
+    t = kind["t"]
+    if t == "cont":
+        return {"cont": True, "allowable": [float(I.num(kind["min"])), float(I.num(kind["max"]))],
+                "max": float(I.num(kind["max"])), "min": float(I.num(kind["min"]))}
+    if t == "deadband":
+        return {"cont": True, "allowable": [float(I.num(kind["db"])), float(I.num(kind["max"]))],
+                "max": float(I.num(kind["max"]))}
+    lv = _levels(kind)
+    return {"cont": False, "allowable": lv, "max": max(lv)}
+
+
+def _oracle_snap(snap, regs_prefix, fails, where):
+    """every station is advertised — in the network's containers, through each Interface accessor and in
+    InfrastructureInfo — with ITS OWN description, which is the documented one for its parameters"""
+    kinds = _final_kinds(regs_prefix)
+    ids = snap["ids"]
+    if sorted(ids) != sorted(kinds):
+        fails.append({"kind": "registered_station_missing", "detail": f"{where}: station_ids={ids} registered={list(kinds)}"})
+        return
+    n = len(ids)
+    if not (len(snap["max"]) == len(snap["min"]) == len(snap["allow"]) == len(snap["cont"]) == n):
+        fails.append({"kind": "interface_info_differs", "detail": f"{where}: containers of different lengths {snap}"})
+        return
+    for i, sid in enumerate(ids):
+        own = snap["own"][i]
+        spec = _spec_info(kinds[sid])
+        # the EVSE's own description is the documented one
+        if kinds[sid]["t"] == "finite" and own["allowable"] != spec["allowable"]:
+            fails.append({"kind": "finite_list_not_normalised", "detail": f"{where}: {sid} allowable={own['allowable']} expected={spec['allowable']}"})
+        elif own["allowable"] != spec["allowable"] or own["cont"] != spec["cont"]:
+            fails.append({"kind": "advertised_set_wrong", "detail": f"{where}: {sid} advertises {own} expected={spec}"})
+        if own["max"] != spec["max"] or ("min" in spec and own["min"] != spec["min"]):
+            fails.append({"kind": "advertised_max_wrong", "detail": f"{where}: {sid} max={own['max']} min={own['min']} expected={spec}"})
+        # the network's containers carry it at the station's position
+        got = {"max": snap["max"][i], "min": snap["min"][i], "cont": snap["cont"][i], "allowable": snap["allow"][i]}
+        if got != own:
+            fails.append({"kind": "interface_info_differs", "detail": f"{where}: network containers for {sid!r} (position {i}) = {got}, the station's own = {own}"})
+        # InfrastructureInfo, at the index it reports for the station
+        f = snap["infra"]
+        if f["err"] is None:
+            if f["ids"] != ids:
+                fails.append({"kind": "interface_info_differs", "detail": f"{where}: InfrastructureInfo.station_ids={f['ids']} network={ids}"})
+            else:
+                j = f["index"][i]
+                gi = None
+                if 0 <= j < n:
+                    gi = {"max": f["max"][j], "min": f["min"][j], "cont": f["cont"][j], "allowable": f["allow"][j]}
+                if gi != own:
+                    fails.append({"kind": "interface_info_differs", "detail": f"{where}: infrastructure_info() for {sid!r} (index {j}) = {gi}, the station's own = {own}"})
+    # the accessors, per queried id
+    for q in snap["iface"]:
+        sid = q["id"]
+        if sid not in kinds:
+            for fld in ("allowable", "max", "min"):
+                if q[fld]["err"] is None:
+                    fails.append({"kind": "unknown_station_answered", "detail": f"{where}: Interface {fld} for unregistered id {sid!r} = {q[fld]}"})
+            continue
+        own = snap["own"][ids.index(sid)]
+        a, mx, mn = q["allowable"], q["max"], q["min"]
+        if not q.get("live_same", True):
+            fails.append({"kind": "interface_info_differs", "detail": f"{where}: an Interface that exists since before the registrations answers {q['live']} for {sid!r}, one made now answers { {k: q[k] for k in ('allowable', 'max', 'min')} }"})
+        if a["err"] is None and (a["cont"] != own["cont"] or a["vals"] != own["allowable"]):
+            fails.append({"kind": "interface_info_differs", "detail": f"{where}: Interface.allowable_pilot_signals({sid!r}) = {(a['cont'], a['vals'])}, the station's own = {(own['cont'], own['allowable'])}"})
+        if mx["err"] is None and mx["v"] != own["max"]:
+            fails.append({"kind": "interface_info_differs", "detail": f"{where}: Interface.max_pilot_signal({sid!r}) = {mx['v']}, the station's own = {own['max']}"})
+        if mn["err"] is None and mn["v"] != own["min"]:
+            fails.append({"kind": "interface_info_differs", "detail": f"{where}: Interface.min_pilot_signal({sid!r}) = {mn['v']}, the station's own = {own['min']}"})
+        if snap["infra"]["err"] is None and (a["err"] or mx["err"] or mn["err"]):
+            fails.append({"kind": "interface_info_differs", "detail": f"{where}: Interface accessors for registered {sid!r} raise {a['err'] or mx['err'] or mn['err']} although infrastructure_info() is available"})
+    if not snap["unchanged_by_consumer"]:
+        fails.append({"kind": "advertised_info_changed_by_consumer", "detail": f"{where}: writing into the InfrastructureInfo returned by infrastructure_info() changed the network's containers"})
+
+
 def oracle(case, obs):
     fails = []
-    kind = case["kind"]
+    regs = _regs(case)
+    kinds = _final_kinds(regs)
     info = obs["info"]
-    # advertised values accepted
-    for v, ok in info["advertised_accepted"]:
+    # advertised values accepted, per station
+    for sid, v, ok in info["advertised_accepted"]:
         if not ok:
-            fails.append({"kind": "advertised_value_rejected", "detail": f"advertised {v} is rejected by the EVSE"})
-    # finite normalisation
-    if kind["t"] == "finite":
-        al = info["allowable"]
-        want = sorted(set(float(I.num(r)) for r in kind["rates"]) | {0.0})
-        if al != want:
-            fails.append({"kind": "finite_list_not_normalised", "detail": f"allowable={al} expected={want}"})
-        if info["max"] != max(want):
-            fails.append({"kind": "advertised_max_wrong", "detail": f"max={info['max']} expected={max(want)}"})
-    else:
-        mx = I.num(kind["max"])
-        if float(info["max"]) != float(mx):
-            fails.append({"kind": "advertised_max_wrong", "detail": f"max={info['max']} expected={mx}"})
-    # cache / interface truthful
-    f = info["iface"]
-    if not (f["max"] == info["max"] == f["net_max"] and f["min"] == info["min"] == f["net_min"]
-            and f["cont"] == info["cont"] == f["net_cont"] and f["allowable"] == info["allowable"] == f["net_allow"]):
-        fails.append({"kind": "interface_info_differs", "detail": f"evse={info} iface={f}"})
+            fails.append({"kind": "advertised_value_rejected", "detail": f"value {v} advertised for station {sid!r} is rejected by that station"})
+    # cache / interface truthful: after every registration, after the constraint edits, after the operations
+    for k, snap in enumerate(obs["snaps"]):
+        if snap.get("reg_err") is not None:
+            fails.append({"kind": "unexpected_exception", "detail": f"register_evse #{k}: {snap['reg_err']}"})
+        _oracle_snap(snap, regs[:k + 1], fails, f"after registration {k}")
+    _oracle_snap(obs["post_cons"], regs, fails, "after the constraint edits")
+    _oracle_snap(obs["post"], regs, fails, "after the operations")
     for i, (o, st) in enumerate(zip(case["ops"], obs["steps"])):
         op = o["op"]
+        at = o.get("at", "S")
+        kind = kinds[at]
         if op == "valid":
             atol_eff = o["atol"] if kind["t"] != "finite" else ATOL
             exp = _expected_valid(kind, I.num(o["p"]), atol_eff)
             if exp is not None and exp != st["valid"]:
-                fails.append({"kind": "validity_wrong", "detail": f"op {i} pilot {o['p']} atol {atol_eff}: accepted={st['valid']} expected={exp}"})
-        elif op == "set_pilot":
+                fails.append({"kind": "validity_wrong", "detail": f"op {i} station {at!r} pilot {o['p']} atol {atol_eff}: accepted={st['valid']} expected={exp}"})
+            continue
+        if st["others_changed"]:
+            fails.append({"kind": "other_station_changed", "detail": f"op {i} on station {at!r} changed {st['others_changed']}"})
+        if op == "set_pilot":
             exp = _expected_valid(kind, I.num(o["p"]), ATOL)
             accepted = st["err"] is None
             if st["err"] not in (None, "InvalidRate"):
                 fails.append({"kind": "unexpected_exception", "detail": f"op {i}: {st['err']}"})
                 continue
             if exp is not None and exp != accepted:
-                fails.append({"kind": "validity_wrong", "detail": f"op {i} set_pilot({o['p']}): accepted={accepted} expected={exp}"})
+                fails.append({"kind": "validity_wrong", "detail": f"op {i} station {at!r} set_pilot({o['p']}): accepted={accepted} expected={exp}"})
             if not accepted:
                 b = st["before"]
                 if b["pilot"] != st["pilot"] or b["ev"] != st["ev"]:
@@ -382,26 +811,60 @@ def oracle(case, obs):
     return fails
 
 
+def _shared_minmax(case):
+    """two stations of one class with equal min_rate / max_rate and different allowable sets"""
+    seen = {}
+    for sid, k in _final_kinds(_regs(case)).items():
+        s = _spec_info(k)
+        lo = 0.0 if k["t"] == "deadband" else (s["allowable"][0] if k["t"] == "cont" else ([v for v in s["allowable"] if v > 0] or [0.0])[0])
+        key = (k["t"], lo, s["max"])
+        if key in seen and seen[key] != s["allowable"]:
+            return True
+        seen.setdefault(key, s["allowable"])
+    return False
+
+
 def nontrivial(case, obs):
-    bs = _boundaries(case["kind"])
+    kinds = _final_kinds(_regs(case))
     for o, st in zip(case["ops"], obs["steps"]):
         if o["op"] in ("valid", "set_pilot"):
             p = I.num(o["p"])
             if isinstance(p, float) and math.isnan(p):
                 continue
-            if any(abs(p - b) <= 2.5e-3 for b in bs):
+            if any(abs(p - b) <= 2.5e-3 for b in _boundaries(kinds[o.get("at", "S")])):
                 return True
             if o["op"] == "set_pilot" and st.get("err") == "InvalidRate" and st["before"]["ev"] is not None:
                 return True
-    return False
+    return _shared_minmax(case)
 
 
 def features(case, obs):
-    out = ["kind:" + case["kind"]["t"]]
+    regs = _regs(case)
+    kinds = _final_kinds(regs)
+    out = ["kind:" + case["kind"]["t"], "net:stations=" + str(len(kinds))]
+    if len(kinds) > 1:
+        out += ["net:other_kind:" + k["t"] for s, k in kinds.items() if s != "S"]
+        if _shared_minmax(case):
+            out.append("net:same_class_minmax_other_set")
+        specs = [_spec_info(k) for k in kinds.values()]
+        if any(a["allowable"] == b["allowable"] and a["cont"] == b["cont"] for i, a in enumerate(specs) for b in specs[i + 1:]):
+            out.append("net:same_description_twice")
+        if list(kinds) != sorted(kinds):
+            out.append("net:registration_order_not_sorted")
+    if len(regs) != len(kinds):
+        out.append("net:id_registered_twice")
+    for c in (case.get("net") or {}).get("cons", []):
+        out.append("net:constraint_" + c["op"])
+    if any(q["id"] not in kinds for q in obs["post"]["iface"]):
+        out.append("net:unknown_id_queried")
+    if obs["post"]["infra"]["err"]:
+        out.append("net:infrastructure_info_err:" + obs["post"]["infra"]["err"])
     for o, st in zip(case["ops"], obs["steps"]):
         if o["op"] == "set_pilot" and o["p"] == "inf":
             out.append("set_pilot_inf")
         out.append("op:" + o["op"] + (":same_" + o["same"] if o.get("same") else ""))
+        if o.get("at", "S") != "S":
+            out.append("op_at_other_station")
         if "err" in st and st["err"]:
             out.append("err:" + st["err"])
         if o["op"] == "valid":
